@@ -259,9 +259,7 @@ TagConflict(p, l) ==
 OItemIds(st) == UNION {RefIds(st.lines[i]) : i \in {j \in DOMAIN st.lines : st.lines[j].rt = "O"}}
 WrongKindForPlaceholder(st, l) ==
   Named(l) /\ ((l.name \in VirtSegIds(st) /\ l.rt # "S")
-               \/ (l.name \in UnknownIds(st) /\ l.rt \notin {"S", "E", "G", "O", "U"})
-               \* an ordered group lists the identifier: it cannot be a set (whichever line comes first)
-               \/ (l.rt = "U" /\ l.name \in OItemIds(st) /\ l.name \notin NamesOf(st)))
+               \/ (l.name \in UnknownIds(st) /\ l.rt \notin {"S", "E", "G", "O", "U"}))
 \* a line that mentions its own identifier (as a segment, or as an item of the group it is): the
 \* identifier would be carried by two lines / a group would list itself -- refused
 SelfMention(l) == Named(l) /\ l.name \in Mentions(l)
@@ -280,7 +278,7 @@ AddDecided(st, l) ==
     \* a segment is mentioned under an identifier that a line of another type carries
     THEN {Fail(st, "NotUniqueError"), Fail(st, "Error")}
   ELSE IF l.rt = "O" /\ \E i \in DOMAIN st.lines : st.lines[i].rt = "U" /\ st.lines[i].name \in RefIds(l)
-    THEN {Fail(st, "Error")}                  \* an ordered group cannot list a set: refused
+    THEN {[st |-> st, res |-> "unmodelled"]}   \* an ordered group cannot list a set: not specified
   ELSE IF IsLink(l) THEN
     LET clash == {i \in DOMAIN st.lines : LinkClash(st.lines[i], l)} IN
     IF \E i \in clash : IsComplement(l, st.lines[i]) /\ SameEnds(l, st.lines[i])
